@@ -103,7 +103,7 @@ def parse(out, res):
             g = re.search(r"search is (\d+)", text)
             if g:
                 res.diameter = int(g.group(1))
-        elif code == 2193:
+        elif code == 2193 or code == 2210:      # model checking completed / simulation finished
             res.completed = True
         elif code == 2186:
             res.finished = True
